@@ -49,13 +49,17 @@ func init() {
 			func(tier string) []string {
 				return []string{"{d}", "{d}.{d}", "{d}.{d}.{d}", "{d}.{d}.{d}.{d}", "{d}.0", "{d}.{d}.0.0", "{d}.{d}.{l}{l}{d}", "{d}.{d}.{d}.{l}{l}{d}", "{d}.{d}.{l}", "{d}.{d}.{l}{l}", "{d}.{d}-{l}{l}", "{d}.{d}.{d}-{l}{l}{l}{l}{l}",
 					"{d}.{d}.{l}{d}", "{d}.{d}-{l}{l}.{d}", "{d}.{d}.{l}{l}{l}{l}.{l}", "{d}.{d}.{d}.{l}{l}{l}", "{d}.{d}-{d}", "{d}.0.{l}{l}{d}", "{d}{d}.{d}", "{d}.{d}.pre", "{d}.{d}.pre.{l}",
-					"{d}.{d}.{l}{d}.{l}", "{d}.{l}{d}.{l}{d}", "{d}.{d}.{l}{d}.{l}{l}{d}"}
+					"{d}.{d}.{l}{d}.{l}", "{d}.{l}{d}.{l}{d}", "{d}.{d}.{l}{d}.{l}{l}{d}",
+					// two hyphens, hyphen next to dots
+					"{d}.{d}-{l}-{l}", "{d}.{d}-{l}{l}-{l}{d}", "{d}.{d}-{l}.{l}", "{d}.{d}.{l}-{l}"}
 			}},
 		{"C14", "alpine", "C14Pair", "alpine Compare gives the same sign as apk-tools on well-formed versions with equal component counts and no leading zeros", "Go transliteration of the rule list (numeric components, letter, suffix ranks with numbers, extra pre/post suffix, -rN), validated at dev time on the 288 well-formed rows of apk-tools' own version.data shipped in the repository (0 mismatches)",
 			func(tier string) []string {
 				out := []string{"{d}", "{d}.{d}", "{d}.{d}.{d}", "{d}.{d}{l}", "{d}.{d}_{l}{l}{d}", "{d}.{d}_{l}", "{d}.{d}_{l}{d}", "{d}.{d}_{l}{l}{l}", "{d}.{d}_{l}{l}{l}{d}", "{d}.{d}_{l}{l}{l}{l}{d}", "{d}.{d}_{l}{l}{l}{l}{l}", "{d}.{d}{l}_{l}{l}{l}",
 					"{d}.{d}_{l}{l}_{l}", "{d}.{d}_{l}{l}{l}_{l}{d}", "{d}.{d}-r{d}", "{d}.{d}_{l}{l}{d}-r{d}", "{d}.{d}{l}-r{d}", "{D}{d}.{d}", "{d}.{D}{d}", "{d}.{d}_{l}{l}", "{d}.{d}{l}_{l}{d}",
-					"{d}.{d}_{l}{l}{l}{l}{l}_{l}{l}{l}_{l}", "{d}.{d}_{l}{d}_{l}{l}{l}{d}_{l}{l}{d}", "{d}.{d}_{l}{l}_{l}{l}{l}_{l}{l}{l}{l}{l}", "{d}.{d}_{l}{l}{l}_{l}{l}_{l}{l}{l}{l}"}
+					"{d}.{d}_{l}{l}{l}{l}{l}_{l}{l}{l}_{l}", "{d}.{d}_{l}{d}_{l}{l}{l}{d}_{l}{l}{d}", "{d}.{d}_{l}{l}_{l}{l}{l}_{l}{l}{l}{l}{l}", "{d}.{d}_{l}{l}{l}_{l}{l}_{l}{l}{l}{l}",
+					// suffix numbers with four and eight digits (date stamps)
+					"{d}.{d}_{l}{l}{l}{D}{d}{d}{d}", "{d}.{d}_{l}{D}{d}{d}{d}{d}{d}{d}{d}", "{d}.{d}_{l}{l}{D}{d}{d}{d}{d}{d}{d}{d}"}
 				if tier == "thorough" {
 					out = append(out, "{d}.{d}.{d}.{d}", "{d}.{d}.{d}.{d}.{d}", "{d}.{d}_{l}{l}{l}{d}_{l}{d}", "{d}.{d}_{l}_{l}{l}_{l}{l}{l}", "{d}.{D}{d}{d}{d}{d}{d}{d}{d}{d}{d}", "{d}.{d}.{d}_{l}{l}{l}{d}-r{D}{d}")
 				}
